@@ -211,6 +211,89 @@ fn scenario(pr: &Params) -> Verdict {
     e3::finish(v)
 }
 
+/// A subscriber goes away and a new connection announces the same identity at about the same time
+/// (every interleaving within the bound): once the new connection's subscription has been processed,
+/// a matching publish must reach it.
+fn reconnect_scenario(ty: Ty, policy: u8, eof_first: bool) -> Verdict {
+    world::reset(world::WorldCfg { nested_env: true, yields: true, select: true, policy, coop: false });
+    let s1 = e3::raw_conn("S1");
+    let s2 = e3::raw_conn("S2");
+    s1.send(&rc::handshake("SUB", Some(b"sub")));
+    s1.send(&rc::encode_message(&[vec![1u8, b'a']]));
+    s2.gate("first-up");
+    s2.send(&rc::handshake("SUB", Some(b"sub")));
+    s2.send(&rc::encode_message(&[vec![1u8, b'a']]));
+    let sock = AnySocket::new(ty, None);
+    let be = sock.backend();
+    let be2 = be.clone();
+    world::spawn_app("attach1", async move {
+        let r = e3::attach_raw(be, s1).await;
+        world::log(format!("attach(first) -> {}", e3::ok_or_err(&r)));
+        world::set_cond("first-attached");
+    });
+    world::spawn_app("attach2", async move {
+        let r = e3::attach_raw(be2, s2).await;
+        world::log(format!("attach(second) -> {}", e3::ok_or_err(&r)));
+        world::set_cond("second-attached");
+    });
+    world::spawn_app("app", async move {
+        let mut sock = sock;
+        world::wait_cond("first-attached").await;
+        if ty == Ty::XPub {
+            let _ = world::until_idle(sock.recv()).await;
+        } else {
+            world::idle().await;
+        }
+        // the first connection ends and the peer comes back under the same identity; the order in which
+        // the socket sees the two events is up to the scheduler (and to `eof_first` for the default order)
+        if eof_first {
+            s1.eof();
+            world::set_cond("first-up");
+        } else {
+            world::set_cond("first-up");
+            s1.eof();
+        }
+        world::wait_cond("second-attached").await;
+        if ty == Ty::XPub {
+            for _ in 0..3 {
+                if world::until_idle(sock.recv()).await.is_none() {
+                    break;
+                }
+            }
+        } else {
+            world::idle().await;
+        }
+        let r = sock.send(msg(&[b"a-news".to_vec()])).await;
+        world::log(format!("publish -> {}", e3::ok_or_err(&r)));
+        world::set_cond("published");
+        world::wait_cond("never").await;
+        drop(sock);
+    });
+    let end = world::run(e3::HORIZON);
+    let mut v = Verdict::default();
+    v.truncated = end != world::RunEnd::Quiescent;
+    let what = format!("{}: a subscriber (announced identity, subscribed to \"a\") leaves and a new connection with the same identity subscribes to \"a\"", ty.name());
+    for p in world::panics() {
+        v.violate("panic", format!("{}: {}", what, p));
+    }
+    if v.truncated {
+        v.violate("spin", format!("{}: no quiescence", what));
+    }
+    if world::cond("published") && world::panics().is_empty() {
+        let got = s2.tap_messages();
+        if got != vec![vec![b"a-news".to_vec()]] {
+            v.violate(
+                "reconnect/new-connection-lost-its-subscription",
+                format!("{}: after both events were processed a matching publish reached the new connection {} times (its wire: {:?})", what, got.len(), got.iter().map(|m| rc::show_frames(m)).collect::<Vec<_>>()),
+            );
+        }
+    } else if world::panics().is_empty() && !v.truncated {
+        v.violate("reconnect/app-stuck", format!("{}: the application did not get to publish", what));
+    }
+    v.outcome_hash = rc::fnv(e3::canon_log().join("|").as_bytes());
+    e3::finish(v)
+}
+
 fn pj(p: &Params) -> Value {
     json!({"type": p.ty.name(), "hists": p.hists, "policy": p.policy})
 }
@@ -247,6 +330,10 @@ pub fn run(tier: Tier, replay: Option<String>) -> i32 {
     if let Some(path) = replay {
         let v: Value = serde_json::from_str(&std::fs::read_to_string(&path).expect("read")).expect("json");
         return crate::replay::replay_e3(&v, |p| {
+            if p["scenario"] == "reconnect" {
+                let (ty, pol, ef) = (Ty::from_name(p["type"].as_str()?)?, p["policy"].as_u64()? as u8, p["eof_first"].as_bool()?);
+                return Some(std::sync::Arc::new(move || reconnect_scenario(ty, pol, ef)) as zvcore::explore::Scenario);
+            }
             let pr = pf(p)?;
             Some(std::sync::Arc::new(move || scenario(&pr)) as zvcore::explore::Scenario)
         });
@@ -271,6 +358,13 @@ pub fn run(tier: Tier, replay: Option<String>) -> i32 {
                 n_hist += 1;
                 let bound = if tier == Tier::Thorough && a.len() + b.len() <= 2 { 1 } else { 0 };
                 jobs.push(e3::job(format!("C11/{}/2/{:?}/{:?}", ty.name(), a, b), pj(&pr), bound, 20_000, move || scenario(&pr2)));
+            }
+        }
+    }
+    for ty in [Ty::Pub, Ty::XPub] {
+        for policy in 0..3u8 {
+            for eof_first in [false, true] {
+                jobs.push(e3::job(format!("C11/reconnect/{}/policy{}/{}", ty.name(), policy, eof_first), json!({"scenario":"reconnect","type":ty.name(),"policy":policy,"eof_first":eof_first}), tier.pick(3, 4), tier.pick(300_000, 3_000_000), move || reconnect_scenario(ty, policy, eof_first)));
             }
         }
     }
